@@ -169,15 +169,26 @@ def run_chain(job, reverse):
     baseline = {}     # (module index) -> outcome table recorded right after the module was built
     sigs = set()
 
+    diverged = [False]
+
     def table(i):
+        # (a call that does not come back costs half a minute of patience: after the first one nothing more is recorded;
+        # the comparison with the model below reports it and abandons the chain)
         g = mods[i]
         out = []
         for t in INPUTS[:90]:
+            if diverged[0]:
+                out.append(('NOT-RUN', None, None))
+                continue
             o = impl.run(g.parse, e1.fresh(t), 0, True, spans=False, time_limit=1.0, patient=True)
+            if o['kind'] == 'DIVERGES':
+                diverged[0] = True
             out.append((o['kind'], o.get('value'), o.get('index')))
         return out
 
     def check_unchanged(when):
+        if diverged[0]:
+            return
         for i, tb in baseline.items():
             now = table(i)
             bump('cases', len(now))
@@ -302,7 +313,7 @@ def run(tier, seed):
                 'non-trivial = the model run needed a restore')
     chk.assumptions = ['reference interpreter (late binding, lexical super, skip set = union over the chain)',
                        'M.<R>.parse for a rule M merely inherits is not compared (it is the parent\'s own object)']
-    chk.explore(run_job, chains(tier), chunk=2, job_deadline=120)
+    chk.explore(run_job, chains(tier), chunk=2, job_deadline=300)
     return chk.finish(floor=1000)
 
 
